@@ -14,6 +14,7 @@ import json
 import time
 import math
 import hashlib
+import fnmatch
 import pickle
 import importlib
 import traceback
@@ -60,6 +61,7 @@ class SymEnv(object):
         shim.HOOKS.la = None
         shim.HOOKS.log = None
         shim.HOOKS.warn = None
+        shim.HOOKS.fmt = None
         self.p = core.CUR
 
     # -- inputs
@@ -459,7 +461,7 @@ def sym_entry(module, body, params):
 
 class Harness(object):
     def __init__(self, name, module, body, params=None, cfg=None, functions=(), bounds='', assumptions=(),
-                 expect=(), max_paths=200000, wall_budget=None, nproc=None, max_replays=4, replay=True,
+                 expect=(), max_paths=50000, wall_budget=600, nproc=None, max_replays=4, replay=True,
                  expect_exhaustive=True):
         self.name = name
         self.module = module
@@ -490,10 +492,11 @@ def _match_known(known, pid, hname, label):
     for k in known:
         if k.get('status') != 'known' or k.get('property') != pid:
             continue
-        if k.get('harness') not in (None, hname):
+        kh = k.get('harness')
+        if kh is not None and not fnmatch.fnmatchcase(hname, kh):
             continue
         kl = k.get('label')
-        if kl is None or kl == label or (kl.endswith('*') and label.startswith(kl[:-1])):
+        if kl is None or fnmatch.fnmatchcase(label, kl):
             return k
     return None
 
